@@ -437,12 +437,12 @@ func (g *FuncGen) trBinary(env *Env, x *EBinary) Val {
 		if gt != nil && isFloat(gt) {
 			return Val{T: fmt.Sprintf("(fp.eq %s %s)", a.T, b.T), S: SBool, GT: boolT}
 		}
-		return Val{T: eq(a.T, b.T), S: SBool, GT: boolT}
+		return Val{T: g.valuesEqual(a.T, b.T, gt), S: SBool, GT: boolT}
 	case "!=":
 		if gt != nil && isFloat(gt) {
 			return Val{T: not(fmt.Sprintf("(fp.eq %s %s)", a.T, b.T)), S: SBool, GT: boolT}
 		}
-		return Val{T: not(eq(a.T, b.T)), S: SBool, GT: boolT}
+		return Val{T: not(g.valuesEqual(a.T, b.T, gt)), S: SBool, GT: boolT}
 	case "<":
 		op = token.LSS
 	case "<=":
@@ -879,6 +879,17 @@ func (g *FuncGen) trCall(env *Env, x *ECall) Val {
 		cnd := g.trBool(env, x.Args[0], "")
 		a, b := g.unify(g.tr(env, x.Args[1]), g.tr(env, x.Args[2]))
 		return Val{T: ite(cnd, a.T, b.T), S: a.S, GT: a.GT}
+	case "hasSuffix", "hasPrefix", "strContains":
+		s := g.tr(env, x.Args[0])
+		t := g.tr(env, x.Args[1])
+		if s.S != SString || t.S != SString {
+			g.unsup("%s needs strings", x.Fun)
+		}
+		op := map[string]string{"hasSuffix": "str.suffixof", "hasPrefix": "str.prefixof", "strContains": "str.contains"}[x.Fun]
+		if x.Fun == "strContains" {
+			return Val{T: fmt.Sprintf("(%s %s %s)", op, s.T, t.T), S: SBool, GT: types.Typ[types.Bool]}
+		}
+		return Val{T: fmt.Sprintf("(%s %s %s)", op, t.T, s.T), S: SBool, GT: types.Typ[types.Bool]}
 	case "typeof":
 		a := g.tr(env, x.Args[0])
 		return Val{T: fmt.Sprintf("(i_typ %s)", a.T), S: SInt}
@@ -894,6 +905,22 @@ func (g *FuncGen) trCall(env *Env, x *ECall) Val {
 		}
 		t, _ := g.specType(tyText, env.pkg)
 		return Val{T: eq(fmt.Sprintf("(i_typ %s)", a.T), fmt.Sprint(c.typeTag(t))), S: SBool, GT: types.Typ[types.Bool]}
+	case "zero":
+		// zero(T): the zero value of Go type T
+		t, _ := g.specType(x.Args[0].String(), env.pkg)
+		if t == nil {
+			g.unsup("zero: unknown type %s", x.Args[0])
+		}
+		return Val{T: c.zero(t), S: c.sortOf(t), GT: t}
+	case "cast":
+		// cast(x, T): the dynamic value of interface x viewed as a T (meaningful only under istype(x, T))
+		a := g.tr(env, x.Args[0])
+		t, _ := g.specType(x.Args[1].String(), env.pkg)
+		if t == nil {
+			g.unsup("cast: unknown type %s", x.Args[1])
+		}
+		s := c.sortOf(t)
+		return Val{T: c.unbox(s, fmt.Sprintf("(i_val %s)", a.T)), S: s, GT: t}
 	case "mathint":
 		a := g.defaultInt(g.tr(env, x.Args[0]))
 		if a.S == SInt {
